@@ -180,6 +180,30 @@ Definition check (s : schema) (A : adapter) : bool :=
   && check_type_coercions_are_implemented s A.
 
 (* ====================================================================================== *)
+(* Coverage, written directly from the schema AST (proved equal to the *_targets above)     *)
+(* ====================================================================================== *)
+Definition spec_property_targets (s : schema) : list (string * string) :=
+  flat_map (fun t => app (map (fun f => (t_name t, f_name f)) (type_properties t)) [(t_name t, "__typename")])
+           (visible_types s).
+(* the default the checker passes for a parameter: declared (after the JSON round trip), implicit null, or none *)
+Definition decoded_default (a : arg) : option fv :=
+  match a_default a with
+  | Default v => Some (json_roundtrip v)
+  | _ => if gnullable (a_ty a) then Some Null else None
+  end.
+Definition arg_defaults (args : list arg) : list (string * option fv) :=
+  map (fun a => (a_name a, decoded_default a)) args.
+(* an edge is probed iff every parameter has a default *)
+Definition edge_checkable (f : fld) : bool := negb (has_undefaulted (arg_defaults (f_args f))).
+Definition spec_edge_targets (s : schema) : list (string * string * list (string * fv)) :=
+  flat_map (fun t => flat_map (fun f => if edge_checkable f
+                                        then [(t_name t, f_name f, edge_parameters (arg_defaults (f_args f)))]
+                                        else []) (type_edges t))
+           (visible_types s).
+Definition spec_coercion_targets (s : schema) : list (string * string) :=
+  flat_map (fun t => map (fun i => (i, t_name t)) (t_impl t)) (visible_types s).
+
+(* ====================================================================================== *)
 (* The contract on vertex-less contexts, and fault injection                               *)
 (* ====================================================================================== *)
 (* what a contract-abiding adapter yields: every context once, in order, with the neutral outcome *)
@@ -255,6 +279,17 @@ Definition apply_fault {O} (bad : O) (f : fault) (r : res (list (Z * O))) : res 
           | FBad i => match nth_error out i with Some o => set_nth i (fst o, bad) out | None => out end
           | FPanic => out
           end)
+  end.
+
+(* the faults that change the output of a contract-abiding resolver on the nine probe contexts *)
+Definition fault_effective (f : fault) : Prop :=
+  match f with
+  | FSwap i j => (i < 9)%nat /\ (j < 9)%nat /\ i <> j
+  | FReverse => True
+  | FDrop i => (i < 9)%nat
+  | FDup i => (i < 9)%nat
+  | FBad i => (i < 9)%nat
+  | FPanic => True
   end.
 
 (* where a fault is injected: one resolver x (type, field) *)
